@@ -843,7 +843,7 @@ def lit_int(z):
 
 
 class Style:
-    """prefix | infix | mixed(rng)"""
+    """prefix | infix | mixed(rng) | infix-chain (every operator infix, every left operand unparenthesised)"""
     def __init__(self, kind='prefix', rng=None):
         self.kind = kind
         self.rng = rng or random.Random(0)
@@ -851,7 +851,14 @@ class Style:
     def else_if_chain(self):
         return self.rng.random() < 0.6
 
+    def chain_left(self):
+        # the specification gives all infix operators one precedence and groups strictly left to right, so the LEFT operand of an
+        # infix operator may itself be an infix expression without parentheses: `a op1 b op2 c` = `(a op1 b) op2 c`
+        return self.kind == 'infix-chain' or (self.kind != 'prefix' and self.rng.random() < 0.5)
+
     def infix_here(self):
+        if self.kind == 'infix-chain':
+            return True
         if self.kind == 'prefix':
             return False
         if self.kind == 'infix':
@@ -872,13 +879,14 @@ def expr_nano(e, st, top=True):
     if t == 'un':
         a = expr_nano(e[2], st, False)
         if st.infix_here():
-            inner = a if e[2][0] in ('num', 'bool', 'var', 'call') and not (e[2][0] == 'num' and e[2][1] < 0) else '(' + a + ')' if not a.startswith('(') else a
+            # a numeral directly after '-' would be lexed as ONE negative literal (a different tree, same value): keep the operator explicit
+            inner = a if e[2][0] in ('bool', 'var', 'call') or (e[2][0] == 'num' and e[1] != 'neg' and e[2][1] >= 0) else '(' + a + ')' if not a.startswith('(') else a
             s = ('-' + inner) if e[1] == 'neg' else ('not ' + inner)
             return s if top else '(' + s + ')'
         return '(%s %s)' % ('-' if e[1] == 'neg' else 'not', a)
     if t == 'bin':
         if st.infix_here():
-            a = expr_nano(e[2], st, False)
+            a = expr_nano(e[2], st, e[2][0] == 'bin' and st.chain_left())
             b = expr_nano(e[3], st, False)
             s = '%s %s %s' % (a, OPSYM[e[1]], b)
             return s if top else '(' + s + ')'
